@@ -525,13 +525,18 @@ func runC18Tickets(c *harness.Ctx) {
 		c.Violate("C18/ticket-store-blocks-startup", "first start: %v", err)
 		return
 	}
-	// fault-free prefix: one or two connections, the last one leaves a ticket
-	for i, n := 0, 1+t.Draw("npre", 2); i < n; i++ {
+	// fault-free prefix: none, one or two connections, the last one leaves a
+	// ticket (with none, the interrupted connection makes the very first
+	// checkpoint of a fresh state directory)
+	npre := t.Draw("npre", 3)
+	for i := 0; i < npre; i++ {
 		if !w.connect(ssConnectOpts{issueTicket: true, sendSeed: t.Draw("seed", 2) == 1}) {
 			return
 		}
 	}
-	if _, ok := w.d.Get(ssDir + "/scramblesuit_tickets.json"); !ok {
+	if npre == 0 {
+		c.Feature("first-checkpoint-of-a-fresh-directory")
+	} else if _, ok := w.d.Get(ssDir + "/scramblesuit_tickets.json"); !ok {
 		// (the ticket packet can be lost when the connection is torn down first)
 		c.Feature("prefix-left-no-ticket")
 		c.Reached = true
@@ -552,7 +557,7 @@ func runC18Tickets(c *harness.Ctx) {
 		w.crashed = false
 	}
 	// dry run of the connection that will be interrupted
-	next := ssConnectOpts{issueTicket: t.Draw("issue", 2) == 1}
+	next := ssConnectOpts{issueTicket: t.Draw("issue", 2) == 1 || npre == 0}
 	w.d.ResetPlan()
 	if !w.connect(next) {
 		return
